@@ -30,11 +30,14 @@ RULE = ('every table of each family (single key + id column with ids DEscending,
         'names, names equal after str()) x '
         'key spellings x the strategy cross product: full = reverse x buffersize {None,1..n+1} given as argument '
         'and via petl.config.sort_buffersize x cache x tempdir {default; explicit when chunked}; core = reverse x '
-        'buffersize {None,1..n+1} x cache; lite (extra key spellings) = reverse x buffersize {None,1,n}; every '
+        'buffersize {None,1..n+1} x cache + config.sort_buffersize {1,n}; lite (extra key spellings) = reverse x '
+        'buffersize {None,1,n}; a config-supplied chunk size stays set while the view is built and '
+        'iterated and is restored afterwards; every '
         'view is iterated 3 times (2 with cache=False).  mergesort: every assignment of the rows of every table to '
         '2 (thorough: 3) parts x header variants {same, extra field, permuted, renamed non-key field} x key '
-        '{field, None, index when headers are equal} x reverse x {presorted, not presorted x buffersize {None,1} x '
-        'cache} x 2 passes; header= forms (same / permuted inputs): key {field, None} x header= {natural order, reordered, one '
+        '{field, None, index when headers are equal} x reverse x {presorted, not presorted x (buffersize {None,1} x '
+        'cache, or chunk size 1 via petl.config.sort_buffersize)} x 2 passes; the failed-pass clause takes the '
+        'chunk size by argument and via config; header= forms (same / permuted inputs): key {field, None} x header= {natural order, reordered, one '
         'non-key column dropped, extra column} x reverse x buffersize {None,1}, and missing=\'~\' with the extra column '
         '(both tiers; missing= alone in thorough), against the reference sort(cat()) and the '
         'real sort(cat()).  issorted on every table x key x reverse x strict and on every default sort '
@@ -204,7 +207,7 @@ def _level(level, n):
 def strategies(n, level):
     """Default arguments first.  (reverse, bsmode, buffersize, cache, explicit_tempdir).
     full: reverse x {arg, config} x buffersize {None, 1..n+1} x cache x tempdir {default; explicit when chunked}
-    core: reverse x buffersize {None, 1..n+1} x cache
+    core: reverse x buffersize {None, 1..n+1} x cache, + reverse x config.sort_buffersize {1, n}
     lite: reverse x buffersize {None, 1, n} (key spellings: they do not interact with buffering)"""
     out = []
     level = _level(level, n)
@@ -221,6 +224,10 @@ def strategies(n, level):
                     tds = (False, True) if (level == 'full' and bs is not None and bs <= n) else (False,)
                     for td in tds:
                         out.append((rev, mode, bs, cache, td))
+        if level == 'core':
+            # chunk size supplied through petl.config.sort_buffersize instead of the argument
+            for bs in sorted(set(b for b in (1, n) if b >= 1)):
+                out.append((rev, 'config', bs, True, False))
     return out
 
 
@@ -253,23 +260,25 @@ def _path(n, rev, bs, cache, p):
 
 def run_sort_view(hdr, rows, key, rev, mode, bs, cache, td, npass):
     """Build ONE real sort view and iterate it npass times.  Returns a list of outputs; an output is a
-    list of rows (header first) or ('exc', text)."""
+    list of rows (header first) or ('exc', text).  mode 'config': no buffersize argument; the chunk size is
+    supplied through petl.config.sort_buffersize, which stays set while the view is built AND iterated (as a
+    user who configures it globally would have it) and is restored afterwards."""
     tbl = [tuple(hdr)] + [tuple(r) for r in rows]
     old = petl_config.sort_buffersize
+    outs = []
     try:
         if mode == 'config':
             petl_config.sort_buffersize = bs
             view = etl.sort(tbl, key, reverse=rev, tempdir=_tempdir(td), cache=cache)
         else:
             view = etl.sort(tbl, key, reverse=rev, buffersize=bs, tempdir=_tempdir(td), cache=cache)
+        for _ in range(npass):
+            try:
+                outs.append(list(view))
+            except Exception as e:
+                outs.append(('exc', '%s: %s' % (type(e).__name__, str(e)[:120])))
     finally:
         petl_config.sort_buffersize = old
-    outs = []
-    for _ in range(npass):
-        try:
-            outs.append(list(view))
-        except Exception as e:
-            outs.append(('exc', '%s: %s' % (type(e).__name__, str(e)[:120])))
     return outs
 
 
@@ -446,28 +455,39 @@ def merge_configs(fam):
     for key in fam['keys']:
         for rev in (False, True):
             for (pres, bs, cache) in ((False, None, True), (False, 1, True), (False, None, False),
-                                      (False, 1, False), (True, None, True)):
+                                      (False, 1, False), (False, ('config', 1), True), (True, None, True)):
                 out.append((key, rev, pres, bs, cache, None, None))
     return out
 
 
 def run_merge_view(parts, key, rev, pres, bs, cache, missing, header, npass):
+    """bs may be ('config', b): no buffersize argument, petl.config.sort_buffersize = b while the view is built
+    and iterated (restored afterwards)."""
     tables = [[tuple(h)] + [tuple(r) for r in rows] for h, rows in parts]
-    kw = dict(key=key, reverse=rev, presorted=pres, buffersize=bs, cache=cache)
+    kw = dict(key=key, reverse=rev, presorted=pres, cache=cache)
+    viaconfig = isinstance(bs, (tuple, list)) and len(bs) == 2 and bs[0] == 'config'
+    if not viaconfig:
+        kw['buffersize'] = bs
     if missing is not None:
         kw['missing'] = missing
     if header is not None:
         kw['header'] = list(header)
     outs = []
+    old = petl_config.sort_buffersize
     try:
-        view = etl.mergesort(*tables, **kw)
-    except Exception as e:
-        return [('exc', '%s: %s' % (type(e).__name__, str(e)[:120]))] * npass
-    for _ in range(npass):
+        if viaconfig:
+            petl_config.sort_buffersize = bs[1]
         try:
-            outs.append(list(view))
+            view = etl.mergesort(*tables, **kw)
         except Exception as e:
-            outs.append(('exc', '%s: %s' % (type(e).__name__, str(e)[:120])))
+            return [('exc', '%s: %s' % (type(e).__name__, str(e)[:120]))] * npass
+        for _ in range(npass):
+            try:
+                outs.append(list(view))
+            except Exception as e:
+                outs.append(('exc', '%s: %s' % (type(e).__name__, str(e)[:120])))
+    finally:
+        petl_config.sort_buffersize = old
     return outs
 
 
@@ -628,7 +648,7 @@ def _table_ms(fam, n):
 
 
 def _split_ms(fam, n):
-    ncfg = len(fam['keys']) * 2 * 5 + 4
+    ncfg = len(fam['keys']) * 2 * 6 + 4
     nh = len([hv for hv in fam['hvs'] if hv in fam.get('hforms', ())]) * len(fam['keys']) * 20
     return (len(fam['hvs']) * ncfg + nh) * (0.15 + 0.12 * n)
 
@@ -688,21 +708,28 @@ def transient_failure(case):
     rows = [tuple(r) for r in case['rows']]
     src = FlakyTable(hdr, rows, fail_at=case['fail_at'], times=1)
     kw = {'reverse': case['reverse'], 'cache': case['cache']}
-    if case['buffersize'] is not None:
+    viaconfig = case.get('bsmode') == 'config'
+    if case['buffersize'] is not None and not viaconfig:
         kw['buffersize'] = case['buffersize']
-    view = etl.sort(src, 'k', **kw)
     exp = [hdr] + [tuple(r) for r in ref.stable_sort(rows, [0], case['reverse'])]
+    old = petl_config.sort_buffersize
     try:
-        list(view)
-    except Exception:
-        pass
-    for p in (2, 3):
+        if viaconfig:
+            petl_config.sort_buffersize = case['buffersize']
+        view = etl.sort(src, 'k', **kw)
         try:
-            got = [tuple(r) for r in view]
-        except Exception as e:
-            return (exp, '%s: %s' % (type(e).__name__, str(e)[:80]), 'pass %d after a failed pass raises' % p)
-        if got != exp:
-            return (exp, got, 'pass %d after a failed pass differs from the stable sort' % p)
+            list(view)
+        except Exception:
+            pass
+        for p in (2, 3):
+            try:
+                got = [tuple(r) for r in view]
+            except Exception as e:
+                return (exp, '%s: %s' % (type(e).__name__, str(e)[:80]), 'pass %d after a failed pass raises' % p)
+            if got != exp:
+                return (exp, got, 'pass %d after a failed pass differs from the stable sort' % p)
+    finally:
+        petl_config.sort_buffersize = old
     return None
 
 
@@ -713,9 +740,10 @@ def check_transient(acc, n):
         for fail_at in range(0, n + 2):
             for bs in [None] + list(range(1, n + 2)):
                 for cache in (True, False):
+                  for bsmode in (('arg',) if bs is None else ('arg', 'config')):
                     for rev in (False, True):
                         case = {'kind': 'transient', 'rows': rows, 'fail_at': fail_at, 'buffersize': bs,
-                                'cache': cache, 'reverse': rev}
+                                'bsmode': bsmode, 'cache': cache, 'reverse': rev}
                         acc.states += 1
                         acc.evals += 2
                         acc.transitions += 3
